@@ -73,6 +73,7 @@ class CompiledFunction:
     source_map: Dict[int, Tuple[int, int]] = field(
         default_factory=dict
     )  # bytecode_pos -> (line, column)
+    is_arrow: bool = False  # Arrow functions take this from their creator
 
 
 @dataclass
@@ -1125,6 +1126,7 @@ class Compiler:
             num_locals=len(self.locals),
             free_vars=self._free_vars[:],
             cell_vars=self._cell_vars[:],
+            is_arrow=True,
         )
 
         # Pop outer scope if we pushed it
